@@ -214,5 +214,22 @@ class Factory:
         except Unconstructible:
             raise
         except Exception as ex:   # noqa  -- the library refuses our minimal instance: report, do not hide
+            if lenient:
+                # element under test: build it without the attributes whose assignment the library cannot perform
+                good = {}
+                for k, v in kwargs.items():
+                    try:
+                        cls(value, xsd_check=xsd_check, **{k: v}) if value != '' else cls(xsd_check=xsd_check, **{k: v})
+                        good[k] = v
+                    except Exception:   # noqa
+                        pass
+                try:
+                    e = cls(value, xsd_check=xsd_check, **good) if value != '' else cls(xsd_check=xsd_check, **good)
+                    if not bare:
+                        for k in kids:
+                            e.add_child(self.mk(k))
+                    return e
+                except Exception:   # noqa
+                    pass
             raise Unconstructible('%s: %s' % (name, type(ex).__name__))
         return e
